@@ -146,7 +146,7 @@ def _task(args):
         "family": fam.name, "cfg": cfg, "idx": idx, "stats": ex.stats.as_dict(), "candidates": cands,
         "n_candidates": len(ex.candidates), "inconclusive": [(n, len(d)) for n, d in ex.inconclusive[:10]],
         "n_inconclusive": len(ex.inconclusive),
-        "samples": ex.samples[:2], "truncated": ex.truncated, "error": err, "entered": sorted(_ENTERED),
+        "samples": ex.samples[:2], "truncated": ex.truncated or ex.int_cases_cut > 0, "error": err, "entered": sorted(_ENTERED),
         "reached": sorted(ex.reached), "wall": time.time() - t0, "roots": ex.roots, "is_subtree": root is not None,
     }
 
